@@ -204,7 +204,11 @@ class World:
         self.servers[s].state = scheduler.State.frozen
 
     def ev_MarkUnschedule(self, a):
-        self.cell.apps[a].unschedule = True
+        # master._freeze_server marks instances it finds ON the server being frozen
+        app = self.cell.apps.get(a)
+        if app is None or not app.server or app.server not in self.servers:
+            raise SkipEvent()
+        app.unschedule = True
 
     def ev_RemoveServer(self, s):
         srv = self.servers.pop(s)
